@@ -152,7 +152,10 @@ class Decomposer:
 
         expr_out_flat = stage3.List.create([unflatten(e) for e in expr_out])
 
-        if any(isinstance(e, stage3.ConcatenatedAxis) for e in expr_out_flat):
+        if any(isinstance(e, stage3.FlattenedAxis) for e in expr_out_flat):
+            # Nested flattened axes: a concatenation may still be hidden one level further down
+            tensor_out = self._compose_next(exprs_in, tensors_in, expr_out_flat)
+        elif any(isinstance(e, stage3.ConcatenatedAxis) for e in expr_out_flat):
             concat_index, concat_expr = [(i, e) for i, e in enumerate(expr_out_flat) if isinstance(e, stage3.ConcatenatedAxis)][0]
 
             tensors_out = []
